@@ -100,6 +100,21 @@ def statement_products():
             yield ('triple_in_block', s1n, s2n, s3n), 'if (x) { %s %s %s }' % (s1, s2, s3)
 
 
+def suffix_sharing_pairs():
+    """two token pairs in one program whose last / first characters coincide but whose need for a separating blank
+    differs (a decision remembered under too short a key shows when the second pair is printed)"""
+    pairs = [('base64.encode', '64 .toString(2)'), ('a1.b', '1 .b'), ('x10.y', '10 .y'), ('a0.b', '0 .b'),
+             ('b1e3.c', '1e3.c'), ('a+ +b', 'a+b'), ('a- -b', 'a-b'), ('a+ ++b', 'a+b++'),
+             ('a- --b', 'a-b--'), ('a++ +b', 'a+ +b'), ('x/ /re/', 'x/y'), ('typeof a', 'typeof(a)'), ('a in b', 'a.in'),
+             ('a instanceof b', '"a"instanceof b'), ('return_ + 1', 'function f(){return +1}'), ('void 0', 'void(0)'),
+             ('new F', 'new(F)'), ('a = 1 .e', 'a = 1.e1'), ('b = 0x10.c', 'b = 10 .c'), ('c = 1.5.d', 'c = 15 .d')]
+    for first, second in pairs:
+        for a, b in ((first, second), (second, first)):
+            a_, b_ = (x if x.startswith('function') else 'p = %s;' % x for x in (a, b))
+            yield ('suffix_sharing', first, a is first), '%s %s' % (a_, b_)
+            yield ('suffix_sharing_in_function', first, a is first), 'function w() { %s %s }' % (a_, b_)
+
+
 def closing_runs():
     """several constructs closing at once (a long run of layout without a token: closing braces, semicolons, line
     breaks, dedents), then something that is layout only as well, at the end of the output or not"""
@@ -215,7 +230,7 @@ def noin_products():
 
 
 ALL = [binary_products, binary_products_parenthesised, unary_products, member_products, statement_products,
-       closing_runs, keyword_adjacency, keyword_property_products, accessor_products, array_products, noin_products]
+       closing_runs, suffix_sharing_pairs, keyword_adjacency, keyword_property_products, accessor_products, array_products, noin_products]
 LEXICAL = [keyword_property_products, accessor_products, noin_products]
 
 
